@@ -36,7 +36,7 @@ FROM_RESIDUAL = "std::ops::FromResidual::from_residual"
 
 OKVAL_COMBINATORS = {"Option::map", "Option::and_then", "Option::filter", "Option::is_some_and", "Option::inspect",
                      "Result::map", "Result::and_then", "Result::is_ok_and", "Result::inspect", "Option::map_or_else",
-                     "Option::is_none_or", "Poll::map"}
+                     "Option::is_none_or", "Poll::map", "Option::map_or", "Result::map_or", "Result::map_or_else"}
 ERRVAL_COMBINATORS = {"Result::map_err", "Result::or_else", "Result::unwrap_or_else", "Result::is_err_and",
                       "Result::inspect_err"}
 ELEM_COMBINATORS = {"Iterator::map", "Iterator::filter", "Iterator::filter_map", "Iterator::for_each", "Iterator::any",
